@@ -112,6 +112,7 @@ func cmdCheck(args []string) int {
 	sel := E.Select(ps)
 	var obls []*Obligation
 	usesCnt := false
+	usesDv := false
 	var unsupported []string
 	notes := map[string]bool{}
 	funcs := map[string]bool{}
@@ -124,6 +125,9 @@ func cmdCheck(args []string) int {
 		funcs[fl.Func] = true
 		if fr.Enc != nil && fr.Enc.usesCnt {
 			usesCnt = true
+		}
+		if fr.Enc != nil && fr.Enc.usesDv {
+			usesDv = true
 		}
 		if fr.Enc != nil && fr.Enc.usesRunEnd {
 			notes["definitional axioms of runEnd (first address outside a character class, bounded by the slice end)"] = true
@@ -146,7 +150,10 @@ func cmdCheck(args []string) int {
 		}
 	}
 	if usesCnt {
-		extra = append(extra, cntLemmas()...)
+		extra = append(extra, lemmaProofs(CntLemmaProofs)...)
+	}
+	if usesDv {
+		extra = append(extra, lemmaProofs(DvLemmaProofs)...)
 	}
 	workers := runtime.NumCPU()
 	results := DischargeAll(obls, timeout, workers, *tier == "thorough")
@@ -433,10 +440,10 @@ func writeExtraReplay(dir, prop string, x *ExtraResult) string {
 }
 
 // cntLemmas discharges the induction proofs of the lemmas about cnt that the prelude states as axioms.
-func cntLemmas() []*ExtraResult {
+func lemmaProofs(proofs map[string]string) []*ExtraResult {
 	var out []*ExtraResult
 	var names []string
-	for n := range CntLemmaProofs {
+	for n := range proofs {
 		names = append(names, n)
 	}
 	sort.Strings(names)
@@ -446,12 +453,12 @@ func cntLemmas() []*ExtraResult {
 		if err != nil {
 			continue
 		}
-		f.WriteString(CntLemmaProofs[n])
+		f.WriteString(proofs[n])
 		f.Close()
 		ans, _, _ := runSolver(Solvers[0], 20, f.Name())
 		os.Remove(f.Name())
 		out = append(out, &ExtraResult{Name: n, Kind: "lemma", OK: ans == "unsat", By: Solvers[0].Name,
-			Detail: "induction proof of a cnt lemma from the recursive definition (must be unsat); solver answered " + ans, Note: "no-failing-input-found"})
+			Detail: "induction proof of a spec-function lemma from the recursive definition (must be unsat); solver answered " + ans, Note: "no-failing-input-found"})
 	}
 	return out
 }
